@@ -189,7 +189,11 @@ fn panic_iso(e: &'static Engine, workers: usize, yield_before: bool, hold: Hold,
 }
 
 /// a scoped child / a select arm panics: the owner re-raises the payload, nothing else is affected
-/// `remove_other`: (select only) a third arm is removed before the polling starts, its end by cancellation is consumed too
+static SIBLING_DONE: AtomicBool = AtomicBool::new(false);
+static SIBLING_ABANDONED: AtomicBool = AtomicBool::new(false);
+
+/// `remove_other`: (select) a third arm is removed before the polling starts, its end by cancellation is consumed too;
+/// (scope) the panicking child is the one spawned last
 fn owner_reraise(e: &'static Engine, workers: usize, select: bool, remove_other: bool) {
     rt_init_opts(workers, 1, 0x4000, 3_600_000_000_000);
     e.begin();
@@ -226,6 +230,20 @@ fn owner_reraise(e: &'static Engine, workers: usize, select: bool, remove_other:
                         }
                     }
                 });
+            } else if remove_other {
+                // (scope only) the panicking child is spawned last, its sibling is still busy when the panic is re-raised
+                coroutine::scope(|s| {
+                    go!(s, || {
+                        for _ in 0..3 {
+                            coroutine::yield_now();
+                        }
+                        SIBLING_DONE.store(true, Ordering::SeqCst);
+                    });
+                    go!(s, || {
+                        coroutine::yield_now();
+                        std::panic::panic_any(66u32);
+                    });
+                });
             } else {
                 coroutine::scope(|s| {
                     go!(s, || {
@@ -234,10 +252,14 @@ fn owner_reraise(e: &'static Engine, workers: usize, select: bool, remove_other:
                     });
                     go!(s, || {
                         coroutine::yield_now();
+                        SIBLING_DONE.store(true, Ordering::SeqCst);
                     });
                 });
             }
         });
+        if !select && !SIBLING_DONE.load(Ordering::SeqCst) {
+            SIBLING_ABANDONED.store(true, Ordering::SeqCst);
+        }
         match r {
             Ok(()) => 0u32,
             Err(p) => {
@@ -262,6 +284,9 @@ fn owner_reraise(e: &'static Engine, workers: usize, select: bool, remove_other:
     match b.join() {
         Ok(5) => {}
         _ => e.fail("bystander", "a bystander coroutine did not return its value"),
+    }
+    if SIBLING_ABANDONED.load(Ordering::SeqCst) {
+        e.fail("sibling_abandoned", "the owner got the child's panic while the child's sibling was still running: the scope was left early");
     }
     let h = go!(|| 9u32);
     if h.join().ok() != Some(9) {
@@ -387,6 +412,7 @@ pub fn build(quick: bool) -> Vec<Scenario> {
             v.push(Scenario::new("C13", "panic_isolation", format!("panic.{:?}.thread_locker.w{}", hold, w), Arc::new(move |e| panic_iso(e, w, false, hold, false, true))));
         }
         v.push(Scenario::new("C13", "owner_reraise", format!("scope_child_panic.w{}", w), Arc::new(move |e| owner_reraise(e, w, false, false))));
+        v.push(Scenario::new("C13", "owner_reraise", format!("scope_last_child_panics.w{}", w), Arc::new(move |e| owner_reraise(e, w, false, true))));
         v.push(Scenario::new("C13", "owner_reraise", format!("select_arm_panic.w{}", w), Arc::new(move |e| owner_reraise(e, w, true, false))));
         v.push(Scenario::new("C13", "owner_reraise", format!("select_arm_panic.other_arm_removed.w{}", w), Arc::new(move |e| owner_reraise(e, w, true, true))));
     }
